@@ -58,4 +58,35 @@ def linkPaths (svcFile : Str) (u : SUnit) : List Str :=
 def planLinks (svcFile : Str) (u : SUnit) : List (Str × Str) :=
   (linkPaths svcFile u).map fun rel => (rel, target rel svcFile)
 
+/-! ### carrying the plan out
+
+`enable_service_file` creates the links one after the other; each needs its parent directories (`create_dir_all`) and a free name
+(an existing link of that name is replaced, a directory is not).  The output directory is abstracted to the set of directories and
+links created so far plus the service file itself; every link points to the service file, so a path that runs *through* a link or
+through the service file cannot be created (ENOTDIR). -/
+
+structure Made where
+  dirs : List Str
+  links : List Str
+
+/-- the proper prefixes of a relative path that end before a '/' -/
+def parentsOf (k : Str) : List Str :=
+  (List.range k.length).filterMap fun i => if i > 0 && k[i]? == some '/' then some (k.take i) else none
+
+def blocked (svcFile : Str) (st : Made) (k : Str) : Bool :=
+  (parentsOf k).any fun p => st.links.contains p || p == svcFile
+
+/-- one link: skipped when a parent is not a directory; the parents are created; skipped when the name is a directory -/
+def withParents (st : Made) (k : Str) : List Str := st.dirs ++ (parentsOf k).filter (fun p => !st.dirs.contains p)
+
+def carryStep (svcFile : Str) (st : Made) (k : Str) : Made :=
+  if blocked svcFile st k then st
+  else if (withParents st k).contains k then { dirs := withParents st k, links := st.links }
+  else { dirs := withParents st k, links := if st.links.contains k then st.links else st.links ++ [k] }
+
+def carryOut (svcFile : Str) (plan : List Str) : Made := plan.foldl (carryStep svcFile) { dirs := [], links := [] }
+
+/-- the links that exist after `enable_service_file` ran on an output directory that held only the service file -/
+def madeLinks (svcFile : Str) (u : SUnit) : List Str := (carryOut svcFile (linkPaths svcFile u)).links
+
 end Inst
